@@ -55,6 +55,9 @@ def _contracts():
     for a in ([], [[{"a": 1}, 2]]):
         for g in ([[{"c": 1, "a": -1}, 0]], [[{"c": 1, "a": 2}, 1], [{"c": -1}, 0]]):
             yield {"i": ["a"], "o": ["c"], "a": a, "g": g}
+    # coefficients that almost (but not exactly) cancel when two variables are merged, and exactly cancelling ones
+    for k1, k2 in ((200001, -200000), (1.00001, -1), (3, -3), (0.5, -0.5000001), (1e-8, 1)):
+        yield {"i": ["a", "b"], "o": ["c", "d"], "a": [[{"a": k1, "b": k2}, 3]], "g": [[{"c": k1, "d": k2, "a": 1}, 3], [{"c": -1}, 0]]}
 
 
 NAMES = ["a", "b", "c", "d", "fresh", "absent"]
@@ -67,7 +70,9 @@ def cases(tier, seed):
         yield {"fam": "single", "c": c}
     maps = [[("a", "t"), ("b", "a"), ("t", "b")], [("c", "t"), ("d", "c"), ("t", "d")], [("a", "x"), ("c", "y")], [("a", "b"), ("b", "e")],
             [("c", "d"), ("d", "c")], [("a", "c"), ("b", "z")], [("x", "y"), ("a", "x")], [("b", "b"), ("d", "q"), ("q", "d")],
-            [("a", "q"), ("q", "a")], [("a", "b"), ("c", "d")]]
+            [("a", "q"), ("q", "a")], [("a", "b"), ("c", "d")],
+            [("a", "p"), ("a", "q")], [("a", "t"), ("b", "a"), ("t", "b"), ("a", "t"), ("b", "a"), ("t", "b")], [("c", "t"), ("d", "c"), ("t", "d"), ("c", "t")],
+            [("a", "p"), ("p", "a"), ("a", "q")]]
     for c in _contracts():
         for m in maps:
             k += 1
